@@ -75,7 +75,7 @@ func c08GenA(t *rapid.T) c08ACase {
 	kinds := []string{"ConfigMap", "Secret", "Service", "Deployment", "Namespace", "Zebra", "Alpha", "Job", "ServiceAccount", "Ingress"}
 	seps := []string{"\n---\n", "\n--- \n", "\r\n---\r\n", "\n---\n---\n", "\n\n---\n\n", "\n---  \t\n"}
 	// ("" = no annotation at all; "<empty>" = the annotation is there and holds nothing - an event name that is not known)
-	hooks := []string{"", "", "", "pre-install", "post-upgrade,pre-rollback", "bogus", "pre-install,bogus", "bogus,post-delete", " Pre-Install ", "test", "crd-install", "<empty>", "pre-install,", " "}
+	hooks := []string{"", "", "", "pre-install", "post-upgrade,pre-rollback", "bogus", "pre-install,bogus", "bogus,post-delete", " Pre-Install ", "test", "test-success", "post-install, test-success", "crd-install", "<empty>", "pre-install,", " "}
 	names := []string{"templates/a.yaml", "templates/b.yaml", "templates/sub/c.yaml", "templates/_p.tpl", "templates/NOTES.txt", "templates/z.yml", "templates/sub/NOTES.txt", "templates/0.yaml"}
 	var c c08ACase
 	id := 0
@@ -431,7 +431,7 @@ func c08AProp(t *rapid.T) {
 }
 
 func TestC08A(t *testing.T) {
-	evid.Extra("rule", "C08A: 1-4 template files (yaml/yml, nested directories, a partial _p.tpl, NOTES.txt also in a sub directory) each with 0-4 (sometimes 7, 12 or 25) documents of known and unknown kinds, with or without hook annotations (known events, unknown events, mixtures, odd case/spacing, an annotation that is present but empty or blank, a trailing comma), weights and delete policies, blank and comment-only documents, joined by separators with trailing blanks, CRLF, doubled and leading/trailing separators; every real document carries a unique delimiter-terminated id. After a client-only dry-run install: each id appears exactly once in the place an independent classifier says (manifest, hook list, or nowhere for documents naming an unknown event / living in NOTES or a partial), attributed to its file, content equal as parsed YAML and textually modulo surrounding whitespace and leading document markers; nothing else appears; manifest entries follow the documented install kind order with unknown kinds last, original (file path, position) order within a kind, and every kind - also each unknown one - forming exactly one run (the creation batches are the runs of equal kinds); the same for the documented uninstall order, observed as the document stream a real Uninstall action of the stored release hands to the kube client. Non-trivial = at least 3 documents including a hook and an unknown kind or an odd separator; distinct by the file set.")
+	evid.Extra("rule", "C08A: 1-4 template files (yaml/yml, nested directories, a partial _p.tpl, NOTES.txt also in a sub directory) each with 0-4 (sometimes 7, 12 or 25) documents of known and unknown kinds, with or without hook annotations (known events including the older spelling test-success, unknown events, mixtures, odd case/spacing, an annotation that is present but empty or blank, a trailing comma), weights and delete policies, blank and comment-only documents, joined by separators with trailing blanks, CRLF, doubled and leading/trailing separators; every real document carries a unique delimiter-terminated id. After a client-only dry-run install: each id appears exactly once in the place an independent classifier says (manifest, hook list, or nowhere for documents naming an unknown event / living in NOTES or a partial), attributed to its file, content equal as parsed YAML and textually modulo surrounding whitespace and leading document markers; nothing else appears; manifest entries follow the documented install kind order with unknown kinds last, original (file path, position) order within a kind, and every kind - also each unknown one - forming exactly one run (the creation batches are the runs of equal kinds); the same for the documented uninstall order, observed as the document stream a real Uninstall action of the stored release hands to the kube client. Non-trivial = at least 3 documents including a hook and an unknown kind or an odd separator; distinct by the file set.")
 	rapid.Check(t, c08AProp)
 }
 
